@@ -791,6 +791,77 @@ fn listen_round(initial: usize, max: usize, burst: bool) -> (usize, usize, bool,
     (pk, answered, stalled, n)
 }
 
+/// A pool that grew to `max`, then saw nothing for `quiet` while one connection stayed open: `max`
+/// connections at once are served again. Returns (answered in phase 2, stalled).
+fn listen_quiet_round(initial: usize, max: usize, quiet: Duration) -> (usize, bool) {
+    PASS.store(true, Ordering::SeqCst);
+    set_callback(None);
+    let scratch = Scratch::new("c14q");
+    let addr = scratch.unix_addr("c14q.sock");
+    let (svc, _p) = vl_tsvc::t_service();
+    let server = Server::start(svc, &addr, initial, max, 0);
+    let req = |i: usize| vl_model::wire::encode(&json!({"method": "org.verif.test.Echo", "parameters": {"token": format!("q{}", i), "n": i}}), vl_model::wire::Style::Compact);
+    let mut answered = 0;
+    let mut stalled = false;
+    // phase 1: `max` connections at once (the pool grows to max); all but the first are closed, so that
+    // during the quiet time only workers that were added on demand wait at the queue
+    let mut peers: Vec<Peer> = vec![];
+    for i in 0..max {
+        if let Ok(mut p) = Peer::connect(&addr) {
+            p.send(&req(i));
+            let _ = p.wait_finals(1, Duration::from_secs(5));
+            peers.push(p);
+        }
+    }
+    peers.truncate(1);
+    std::thread::sleep(quiet);
+    // phase 2: up to `max` connections at once again
+    for i in 1..max {
+        if let Ok(mut p) = Peer::connect(&addr) {
+            p.send(&req(10 + i));
+            match p.wait_finals(1, Duration::from_secs(5)) {
+                Wait::Reached => answered += 1,
+                _ => stalled = true,
+            }
+            peers.push(p);
+        }
+    }
+    drop(peers);
+    let _ = server.stop();
+    (answered, stalled)
+}
+
+fn listen_quiet(ctx: &mut Ctx, initial: usize, max: usize, quiet_ms: u64) {
+    let quiet = Duration::from_millis(quiet_ms);
+    let (answered, stalled) = listen_quiet_round(initial, max, quiet);
+    ctx.case(Some(hash64(&(initial, max, quiet_ms, "listen-quiet"))));
+    ctx.class("listen:grown-then-quiet-then-full-again");
+    if stalled {
+        let mut again = None;
+        for _ in 0..3 {
+            let (a2, s2) = listen_quiet_round(initial, max, quiet);
+            if s2 {
+                again = Some(a2);
+                break;
+            }
+        }
+        match again {
+            Some(a2) => {
+                ctx.violation(
+                    "listen/stranded-connection",
+                    &format!(
+                        "listen(initial={}, max={}): {} connections served at once, {} ms without traffic, then {} connections again: only {} (and in a repetition only {}) of the {} new ones were served within 5 s although fewer than {} were in service",
+                        initial, max, max, quiet_ms, max, answered, a2, max - 1, max
+                    ),
+                    "c14-listen",
+                    json!({"initial": initial, "max": max, "quiet_ms": quiet_ms}),
+                );
+            }
+            None => ctx.inconclusive(&format!("listen(initial={}, max={}) after {} ms of quiet: only {} of {} connections answered within 5 s, not repeated in 3 further runs", initial, max, quiet_ms, answered, max)),
+        }
+    }
+}
+
 /// The real listen() loop under max+2 held-open clients: the bound, and that each of the first max
 /// connections is served. A connection left unserved for 5 s while fewer than max are in service is
 /// judged by repetition: the same configuration is run up to three more times, a second occurrence
@@ -840,6 +911,10 @@ fn replay(ctx: &mut Ctx, v: &Value) {
     let cj = &v["case"];
     ctx.case(None);
     ctx.force_sample(cj.clone());
+    if let Some(q) = cj.get("quiet_ms").and_then(|q| q.as_u64()) {
+        listen_quiet(ctx, cj["initial"].as_u64().unwrap_or(1) as usize, cj["max"].as_u64().unwrap_or(2) as usize, q);
+        return;
+    }
     if cj.get("burst").is_some() {
         listen_probe(ctx, cj["initial"].as_u64().unwrap_or(1) as usize, cj["max"].as_u64().unwrap_or(1) as usize, cj["burst"].as_bool().unwrap_or(false));
         return;
@@ -920,6 +995,15 @@ pub fn run(args: &Args) -> ! {
         ctx.bump_sample_cap(5);
         let n = ctx.tier.pick(1_500, 60_000);
         random_schedules(&mut ctx, n);
+    }
+    // which worker waits at the queue during the quiet time depends on the schedule: repeated runs
+    for quiet_ms in ctx.tier.pick(vec![1300u64, 2500], vec![300, 1300, 2500, 4000, 7000, 11000]) {
+        for (initial, max) in [(1usize, 2usize), (1, 3)] {
+            if ctx.failed() {
+                break;
+            }
+            listen_quiet(&mut ctx, initial, max, quiet_ms);
+        }
     }
     let rounds = ctx.tier.pick(6, 60);
     for _ in 0..rounds {
